@@ -504,14 +504,22 @@ def check_loop_ends_on_marker(ck: Checker, rid: str, f, cfg: CFG, loop: Node, zn
     (`z is None` / `z == <marker>`): otherwise the tail of the stream can be dropped silently."""
     term = {}
     for n in cfg.nodes:
-        if n.kind == 'test' and loop.id in n.loops and isinstance(n.ast, ast.Compare) and is_name(n.ast.left, zname) and len(n.ast.ops) == 1:
-            op, r = n.ast.ops[0], n.ast.comparators[0]
+        if n.kind != 'test' or loop.id not in n.loops:
+            continue
+        t, flip = n.ast, False
+        while isinstance(t, ast.UnaryOp) and isinstance(t.op, ast.Not):
+            t, flip = t.operand, not flip
+        if isinstance(t, ast.Compare) and is_name(t.left, zname) and len(t.ops) == 1:
+            op, r = t.ops[0], t.comparators[0]
+            lab = None
             if isinstance(op, ast.Is) and is_none(r):
-                term[n.id] = 'T'
+                lab = 'T'
             elif isinstance(op, ast.IsNot) and is_none(r):
-                term[n.id] = 'F'
-            elif isinstance(op, ast.Eq) and isinstance(r, ast.Name) and (not marker_names or r.id in marker_names):
-                term[n.id] = 'T'
+                lab = 'F'
+            elif isinstance(op, (ast.Eq, ast.NotEq)) and isinstance(r, ast.Name) and (not marker_names or r.id in marker_names):
+                lab = 'T' if isinstance(op, ast.Eq) else 'F'
+            if lab is not None:
+                term[n.id] = ({'T': 'F', 'F': 'T'}[lab]) if flip else lab
     outside = {k.id for k in cfg.nodes if loop.id not in k.loops and k.id != loop.id and k.id not in (cfg.exit_raise,)}
     p = path_avoiding(
         cfg,
